@@ -9,6 +9,27 @@ from .symex import t_and, t_or, t_not, t_ite, to_real
 from .interp import Interp, NUM
 
 
+def mentions(t, ids):
+    """does term t contain a sub-term whose z3 id is in ids?"""
+    if not ids:
+        return False
+    seen = set()
+    stack = [t]
+    while stack:
+        x = stack.pop()
+        i = x.get_id()
+        if i in seen:
+            continue
+        seen.add(i)
+        if i in ids:
+            return True
+        if z3.is_quantifier(x):
+            stack.append(x.body())
+        elif z3.is_app(x):
+            stack.extend(x.children())
+    return False
+
+
 class Source:
     """How to iterate something: either concrete items or binders + guard + element."""
 
@@ -334,8 +355,9 @@ class CompMixin(Interp):
             if z3.is_add(term_s) and term_s.num_args() == 2 and term_s.sort() == z3.IntSort():
                 # binder + constant
                 a0, a1 = term_s.arg(0), term_s.arg(1)
+                ids = {b.get_id() for b in binders}
                 for x0, c0 in ((a0, a1), (a1, a0)):
-                    if z3.is_int_value(c0):
+                    if z3.is_int_value(c0) or not mentions(c0, ids):      # binder + loop-constant offset (`start + i`)
                         for b in binders:
                             if x0.eq(b) and b.get_id() not in found:
                                 found[b.get_id()] = (b, acc - c0)
